@@ -145,14 +145,6 @@ let run_case (line : string) =
             | Some l -> Printf.printf "V %d acc %s\n" idx (str_list l)
             | None -> Printf.printf "V %d cycle\n" idx)
          | _ -> ());
-        (* from-scratch values of every node at the current snapshot (for the reuse oracles) *)
-        let wb = Buffer.create 128 in
-        for fam = 0 to nfam - 1 do for k = 0 to nk - 1 do
-            match Spec.evalo prog fuel (Spec.snap_of s') (n_of_int fam, n_of_int k) with
-            | Some v -> Buffer.add_string wb (Printf.sprintf "%d.%d=%d;" fam k (int_of_n v))
-            | None -> Buffer.add_string wb (Printf.sprintf "%d.%d=c;" fam k)
-          done done;
-        Printf.printf "W %d %s\n" idx (Buffer.contents wb);
         (* state *)
         let r = s'.Model.d_revs in
         let b = Buffer.create 256 in
